@@ -77,10 +77,18 @@ structure PensOk (st : St) : Prop where
   rc : ∀ (k : Nat) (p : Obj), st.pens[k]? = some p →
     (p.freed = false → p.refcount = (p.appRefs : Int) + (holders st k : Int)) ∧ (p.freed = true → holders st k = 0)
   ex : ∀ (k : Nat), st.pens[k]? = none → holders st k = 0
+  /-- a live pen holds at least one reference (it is freed when the count reaches zero) -/
+  pos : ∀ (k : Nat) (p : Obj), st.pens[k]? = some p → p.freed = false → 1 ≤ p.refcount
 
-/-- The state invariant, generalised to the middle of `tickit_window_unref`: the windows in `pending` have been
-    freed by the tree cascade but what they own (pen, terminal reference) has not been released yet. -/
-structure SInvG (st : St) (pending : List Nat) : Prop where
+/-- Render buffers and strings are held by the application only: a live one's count is the application's tally. -/
+def SimpleOk (st : St) : Prop :=
+  (∀ (k : Nat) (b : RBObj), st.rbs[k]? = some b → b.freed = false → 1 ≤ b.refcount ∧ b.refcount = (b.appRefs : Int)) ∧
+  (∀ (k : Nat) (s : StrObj), st.strs[k]? = some s → s.freed = false → 1 ≤ s.refcount ∧ s.refcount = (s.appRefs : Int))
+
+/-- The state invariant without the account of the application's window references, generalised to the middle of
+    `tickit_window_unref`: the windows in `pending` have been freed by the tree cascade but what they own (pen,
+    terminal reference) has not been released yet. -/
+structure SInvB (st : St) (pending : List Nat) : Prop where
   tinv : TInv st.tree
   wx_size : st.wx.size = st.tree.wins.size
   /-- every live window holds at least one reference -/
@@ -96,10 +104,28 @@ structure SInvG (st : St) (pending : List Nat) : Prop where
   term_free : st.term.freed = false → ¬ ((∃ r, LiveW st.tree 0 r) ∨ 0 ∈ pending) →
     st.term.refcount = (st.term.appRefs : Int) ∧ 1 ≤ st.term.refcount
   term_dead : st.term.freed = true → ¬ ((∃ r, LiveW st.tree 0 r) ∨ 0 ∈ pending)
-  rb_rc : ∀ (k : Nat) (b : RBObj), st.rbs[k]? = some b → b.freed = false → 1 ≤ b.refcount
+  simple : SimpleOk st
+
+/-- The state invariant: `SInvB`, and no live window holds more references than the application has taken (no
+    handler is running, so nobody else holds one). -/
+structure SInvG (st : St) (pending : List Nat) : Prop extends SInvB st pending where
+  wref : ∀ (i : Nat) (w : Win), LiveW st.tree i w → w.refcount ≤ ((getX st i).appRefs : Int)
 
 /-- The state invariant between two operations. -/
 abbrev SInv (st : St) : Prop := SInvG st []
+
+theorem SInvB.rb_rc {st : St} {pend : List Nat} (inv : SInvB st pend) (k : Nat) (b : RBObj) (hb : st.rbs[k]? = some b)
+    (hf : b.freed = false) : 1 ≤ b.refcount := (inv.simple.1 k b hb hf).1
+
+theorem getX_setX (st : St) (i : Nat) (x : WinX) (j : Nat) :
+    getX (setX st i x) j = if i = j ∧ i < st.wx.size then x else getX st j := by
+  unfold getX setX
+  by_cases hij : i = j
+  · subst hij
+    by_cases hlt : i < st.wx.size
+    · simp [hlt]
+    · simp [hlt]
+  · simp [hij]
 
 theorem holders_congr {st st' : St} (h : st'.wx = st.wx) (k : Nat) : holders st' k = holders st k := by
   unfold holders; rw [h]
@@ -130,7 +156,7 @@ theorem release_pen {st : St} (P : PensOk st) {i : Nat} (hi : i < st.wx.size) :
   unfold dropWinPen
   cases hpen : (getX st i).pen with
   | null =>
-    refine ⟨st, rfl, rfl, rfl, rfl, rfl, rfl, ?_, ?_⟩
+    refine ⟨st, rfl, rfl, rfl, rfl, rfl, rfl, ?_, ?_, P.pos⟩
     · intro k p hp
       have := holders_forget hi k
       simp only [hpen, show (PenRef.null = PenRef.app k) = False by simp, if_false, Nat.add_zero] at this
@@ -140,7 +166,7 @@ theorem release_pen {st : St} (P : PensOk st) {i : Nat} (hi : i < st.wx.size) :
       simp only [hpen, show (PenRef.null = PenRef.app k) = False by simp, if_false, Nat.add_zero] at this
       rw [this]; exact P.ex k hk
   | own =>
-    refine ⟨st, rfl, rfl, rfl, rfl, rfl, rfl, ?_, ?_⟩
+    refine ⟨st, rfl, rfl, rfl, rfl, rfl, rfl, ?_, ?_, P.pos⟩
     · intro k p hp
       have := holders_forget hi k
       simp only [hpen, show (PenRef.own = PenRef.app k) = False by simp, if_false, Nat.add_zero] at this
@@ -169,7 +195,19 @@ theorem release_pen {st : St} (P : PensOk st) {i : Nat} (hi : i < st.wx.size) :
       simp only [hpk, hf, Bool.false_eq_true, if_false]
       have hge : ¬ p0.refcount < 1 := by omega
       simp only [hge, if_false, pure_ok]
-      refine ⟨_, rfl, rfl, rfl, rfl, rfl, rfl, ?_, ?_⟩
+      refine ⟨_, rfl, rfl, rfl, rfl, rfl, rfl, ?_, ?_, ?_⟩
+      rotate_left 2
+      · intro k p hp hfp
+        simp only [setX_pens, Array.getElem?_setIfInBounds] at hp
+        by_cases hkk : k0 = k
+        · subst hkk
+          simp only [if_true, hk0, Option.some.injEq] at hp
+          subst hp
+          simp only [dropped_freed, decide_eq_false_iff_not] at hfp
+          simp only [dropped_refcount]
+          omega
+        · simp only [hkk, if_false] at hp
+          exact P.pos k p hp hfp
       · intro k p hp
         have hh := holders_forget hi k
         rw [hpen] at hh
@@ -242,16 +280,17 @@ theorem getX_pen_of_map {st st' : St} (h : st'.wx.toList.map (·.pen) = st.wx.to
     rw [Array.getElem?_eq_none (Nat.le_of_not_lt hj), Array.getElem?_eq_none (Nat.le_of_not_lt hj')]
 
 /-- A change of the windows' records that leaves every pen (and everything else) alone keeps the invariant. -/
-theorem SInvG.of_wx {st st' : St} {pend : List Nat} (inv : SInvG st pend) (ht : st'.tree = st.tree)
-    (hp : st'.pens = st.pens) (htm : st'.term = st.term) (hrb : st'.rbs = st.rbs)
-    (hm : st'.wx.toList.map (·.pen) = st.wx.toList.map (·.pen)) : SInvG st' pend := by
+theorem SInvB.of_wx {st st' : St} {pend : List Nat} (inv : SInvB st pend) (ht : st'.tree = st.tree)
+    (hp : st'.pens = st.pens) (htm : st'.term = st.term) (hrb : st'.rbs = st.rbs) (hstr : st'.strs = st.strs)
+    (hm : st'.wx.toList.map (·.pen) = st.wx.toList.map (·.pen)) : SInvB st' pend := by
   have hh := holders_of_pens_eq hm
   have hg := getX_pen_of_map hm
   have hlen : st'.wx.size = st.wx.size := by
     have := congrArg List.length hm
     simpa using this
   refine ⟨by rw [ht]; exact inv.tinv, by rw [hlen, ht]; exact inv.wx_size, by rw [ht]; exact inv.rc, inv.pend_nodup,
-    by rw [ht]; exact inv.pend_freed, ?_, ⟨?_, ?_⟩, ?_, ?_, ?_, by rw [hrb]; exact inv.rb_rc⟩
+    by rw [ht]; exact inv.pend_freed, ?_, ⟨?_, ?_, by rw [hp]; exact inv.pens.pos⟩, ?_, ?_, ?_,
+    ⟨by rw [hrb]; exact inv.simple.1, by rw [hstr]; exact inv.simple.2⟩⟩
   · intro i w hw hf hi; rw [hg]; rw [ht] at hw; exact inv.dead_pen i w hw hf hi
   · intro k p hk; rw [hh]; rw [hp] at hk; exact inv.pens.rc k p hk
   · intro k hk; rw [hh]; rw [hp] at hk; exact inv.pens.ex k hk
@@ -281,16 +320,27 @@ theorem setX_map_pen {st : St} {i : Nat} (x : WinX) (hp : x.pen = (getX st i).pe
       simp [this]
   · simp [hij]
 
-theorem consume_map_pen (st : St) (dead : List Nat) :
-    (consume st dead).wx.toList.map (·.pen) = st.wx.toList.map (·.pen) := by
-  unfold consume
-  simp only [Array.toList_map, List.map_map]
-  apply List.map_congr_left
-  intro x _
-  simp only [Function.comp]
-  split
-  · split <;> rfl
-  · rfl
+theorem consume_map_pen : ∀ (dropped : List Nat) (st : St),
+    (consume st dropped).wx.toList.map (·.pen) = st.wx.toList.map (·.pen)
+  | [], _ => rfl
+  | i :: rest, st => by
+    unfold consume
+    simp only [List.foldl_cons]
+    have := consume_map_pen rest (setX st i { getX st i with appRefs := (getX st i).appRefs - 1 })
+    unfold consume at this
+    rw [this]
+    exact setX_map_pen _ rfl
+
+theorem consume_frame : ∀ (dropped : List Nat) (st : St),
+    (consume st dropped).tree = st.tree ∧ (consume st dropped).pens = st.pens ∧ (consume st dropped).term = st.term ∧
+    (consume st dropped).rbs = st.rbs ∧ (consume st dropped).strs = st.strs ∧ (consume st dropped).penx = st.penx
+  | [], _ => ⟨rfl, rfl, rfl, rfl, rfl, rfl⟩
+  | i :: rest, st => by
+    unfold consume
+    simp only [List.foldl_cons]
+    have := consume_frame rest (setX st i { getX st i with appRefs := (getX st i).appRefs - 1 })
+    unfold consume at this
+    exact this
 
 end Tickit.Life
 
@@ -299,8 +349,9 @@ open WinTree (Id Win Req Change Tree)
 
 /-! ## releasing what a destroyed window owned -/
 
-theorem releaseWin_ok {st : St} {d : Nat} {rest : List Nat} (inv : SInvG st (d :: rest)) :
-    ∃ st', releaseWin st d = .ok st' ∧ SInvG st' rest ∧ st'.tree = st.tree := by
+theorem releaseWin_ok {st : St} {d : Nat} {rest : List Nat} (inv : SInvB st (d :: rest)) :
+    ∃ st', releaseWin st d = .ok st' ∧ SInvB st' rest ∧ st'.tree = st.tree ∧
+      ∀ (j : Nat), (getX st' j).appRefs = (getX st j).appRefs := by
   obtain ⟨dw, hdw, hdf⟩ := inv.pend_freed d (by simp)
   have hd : d < st.wx.size := by
     rw [inv.wx_size]
@@ -310,11 +361,11 @@ theorem releaseWin_ok {st : St} {d : Nat} {rest : List Nat} (inv : SInvG st (d :
       rw [hdw] at this; cases this
   have hnd := List.nodup_cons.1 inv.pend_nodup
   -- step 1: the bindings go
-  have inv1 : SInvG (setX st d { getX st d with binds := [] }) (d :: rest) :=
-    inv.of_wx rfl rfl rfl rfl (setX_map_pen _ rfl)
+  have inv1 : SInvB (setX st d { getX st d with binds := [] }) (d :: rest) :=
+    inv.of_wx rfl rfl rfl rfl rfl (setX_map_pen _ rfl)
   have hd1 : d < (setX st d { getX st d with binds := [] }).wx.size := by simpa using hd
   -- step 2: the pen goes
-  obtain ⟨st2, hdrop, ht2, hwx2, htm2, hrb2, _, P3⟩ := release_pen inv1.pens hd1
+  obtain ⟨st2, hdrop, ht2, hwx2, htm2, hrb2, hstr2, P3⟩ := release_pen inv1.pens hd1
   -- facts about the state after forgetting the pen
   have hget_d : (getX (setX st2 d { getX st2 d with pen := .null }) d).pen = .null := by
     rw [getX_setX_self _ (by rw [hwx2]; exact hd1)]
@@ -327,14 +378,25 @@ theorem releaseWin_ok {st : St} {d : Nat} {rest : List Nat} (inv : SInvG st (d :
     have := getX_setX_ne (st := st) ({ getX st d with binds := [] }) (Ne.symm hj)
     unfold getX at this
     exact this
-  have base : SInvG (setX st2 d { getX st2 d with pen := .null }) rest ∨ d = 0 := by
+  have happ : ∀ (j : Nat), (getX (setX st2 d { getX st2 d with pen := .null }) j).appRefs = (getX st j).appRefs := by
+    intro j
+    by_cases hj : j = d
+    · subst hj
+      rw [getX_setX_self _ (by rw [hwx2]; exact hd1)]
+      have e : getX st2 j = getX (setX st j { getX st j with binds := [] }) j := by
+        show st2.wx[j]?.getD {} = _
+        rw [hwx2]; rfl
+      show (getX st2 j).appRefs = _
+      rw [e, getX_setX_self _ hd]
+    · rw [hget_ne j hj]
+  have base : SInvB (setX st2 d { getX st2 d with pen := .null }) rest ∨ d = 0 := by
     by_cases hd0 : d = 0
     · exact .inr hd0
     · left
       refine ⟨by simp only [setX_tree, ht2]; exact inv.tinv, by simp only [setX_size, setX_tree, ht2, hwx2]; exact inv.wx_size,
         by simp only [setX_tree, ht2]; exact inv.rc, hnd.2,
         by simp only [setX_tree, ht2]; exact fun i hi => inv.pend_freed i (by simp [hi]), ?_, P3, ?_, ?_, ?_,
-        by simp only [setX, hrb2]; exact inv.rb_rc⟩
+        ⟨by simp only [setX, hrb2]; exact inv.simple.1, by simp only [setX, hstr2]; exact inv.simple.2⟩⟩
       · intro i w hw hf hi
         simp only [setX_tree, ht2] at hw
         by_cases hid : i = d
@@ -387,11 +449,11 @@ theorem releaseWin_ok {st : St} {d : Nat} {rest : List Nat} (inv : SInvG st (d :
       rintro (⟨r, hl⟩ | h)
       · rw [hl.1] at hdw; cases hdw; rw [hl.2] at hdf; cases hdf
       · exact hnd.1 h
-    refine ⟨_, rfl, ?_, by simp [ht2]⟩
+    refine ⟨_, rfl, ?_, by simp [ht2], fun j => happ j⟩
     refine ⟨by simp only [setX_tree, ht2]; exact inv.tinv, by simp only [setX_size, setX_tree, ht2, hwx2]; exact inv.wx_size,
       by simp only [setX_tree, ht2]; exact inv.rc, hnd.2,
       by simp only [setX_tree, ht2]; exact fun i hi => inv.pend_freed i (by simp [hi]), ?_, ?_, ?_, ?_, ?_,
-      by simp only [setX, hrb2]; exact inv.rb_rc⟩
+      ⟨by simp only [setX, hrb2]; exact inv.simple.1, by simp only [setX, hstr2]; exact inv.simple.2⟩⟩
     · intro i w hw hf hi
       simp only [setX_tree, ht2] at hw
       by_cases hid : i = 0
@@ -405,7 +467,7 @@ theorem releaseWin_ok {st : St} {d : Nat} {rest : List Nat} (inv : SInvG st (d :
         have := P3.rc k p (by simpa [setX] using hk)
         simpa [holders, setX] using this, fun k hk => by
         have := P3.ex k (by simpa [setX] using hk)
-        simpa [holders, setX] using this⟩
+        simpa [holders, setX] using this, fun k p hk hf => P3.pos k p (by simpa [setX] using hk) hf⟩
     · intro _ h
       exact absurd (by simpa [setX, ht2] using h) hnoroot
     · intro hf _
@@ -416,7 +478,7 @@ theorem releaseWin_ok {st : St} {d : Nat} {rest : List Nat} (inv : SInvG st (d :
       exact hnoroot (by simpa [setX, ht2] using h)
   · simp only [hd0, if_false, pure_ok]
     rcases base with b | b
-    · exact ⟨_, rfl, b, by simp [ht2]⟩
+    · exact ⟨_, rfl, b, by simp [ht2], happ⟩
     · exact absurd b hd0
 
 end Tickit.Life
@@ -426,13 +488,14 @@ open WinTree (Id Win Req Change Tree)
 
 /-! ## `tickit_window_unref` on the whole state -/
 
-theorem release_all : ∀ (dead : List Nat) {st : St}, SInvG st dead →
-    ∃ st', dead.foldlM releaseWin st = .ok st' ∧ SInv st' ∧ st'.tree = st.tree
-  | [], st, inv => ⟨st, rfl, inv, rfl⟩
+theorem release_all : ∀ (dead : List Nat) {st : St}, SInvB st dead →
+    ∃ st', dead.foldlM releaseWin st = .ok st' ∧ SInvB st' [] ∧ st'.tree = st.tree ∧
+      ∀ (j : Nat), (getX st' j).appRefs = (getX st j).appRefs
+  | [], st, inv => ⟨st, rfl, inv, rfl, fun _ => rfl⟩
   | d :: rest, st, inv => by
-    obtain ⟨st1, h1, inv1, ht1⟩ := releaseWin_ok inv
-    obtain ⟨st2, h2, inv2, ht2⟩ := release_all rest inv1
-    refine ⟨st2, ?_, inv2, ht2.trans ht1⟩
+    obtain ⟨st1, h1, inv1, ht1, ha1⟩ := releaseWin_ok inv
+    obtain ⟨st2, h2, inv2, ht2, ha2⟩ := release_all rest inv1
+    refine ⟨st2, ?_, inv2, ht2.trans ht1, fun j => (ha2 j).trans (ha1 j)⟩
     rw [List.foldlM_cons, h1]
     exact h2
 
@@ -470,52 +533,182 @@ theorem live_or_freed_root {t t' : Tree} (ev : TEv t t') (dead : List Nat) (hd :
     | false => exact .inl ⟨r', hr', hf⟩
     | true => exact .inr ((hd.2 0).2 ⟨⟨r, hl⟩, r', hr', hf⟩)
 
-/-- `tickit_window_unref` of a live window never fails and keeps the invariant. -/
-theorem unrefW_ok {cfg : Cfg} (R : Repaired cfg) {st : St} (inv : SInv st) {x : Nat} {xw : Win}
-    (hl : LiveW st.tree x xw) : ∃ st', unrefW cfg st x = .ok st' ∧ SInv st' := by
+/-- The tree part of `tickit_window_unref` of a live window: it never fails; what it leaves behind. -/
+theorem unrefT_ok {cfg : Cfg} (R : Repaired cfg) {st : St} (inv : SInvB st []) {x : Nat} {xw : Win}
+    (hl : LiveW st.tree x xw) :
+    ∃ t' dead dropped, unrefT cfg st.tree x = .ok (t', dead, dropped) ∧ SInvB { st with tree := t' } dead ∧
+      t'.wins.size = st.tree.wins.size ∧
+      (∀ (i : Nat) (w : Win), st.tree.wins[i]? = some w → w.freed = true → ∃ w', t'.wins[i]? = some w' ∧ w'.freed = true) ∧
+      dropped.Nodup ∧
+      (∀ (i : Nat) (w' : Win), LiveW t' i w' → ∃ w, LiveW st.tree i w ∧
+        w'.refcount + (if i = x then 1 else 0) + (if i ∈ dropped then 1 else 0) ≤ w.refcount) := by
   have hr1 := inv.rc x xw hl
   obtain ⟨inv0, _⟩ := inv.tinv.set_refcount hl (xw.refcount - 1)
   have hl0 : LiveW (WinTree.set st.tree x { xw with refcount := xw.refcount - 1 }) x { xw with refcount := xw.refcount - 1 } :=
     ⟨set_get_self _ hl.lt, hl.2⟩
   -- the tree part
-  have tree : ∃ t' dead, unrefT cfg st.tree x = .ok (t', dead) ∧ SInvG { st with tree := t' } dead := by
-    unfold unrefT unrefTWith
-    simp only [get_live hl, bind_ok]
-    have : ¬ xw.refcount < 1 := by omega
-    simp only [this, if_false]
-    by_cases hz : xw.refcount - 1 = 0
-    · simp only [hz, if_true]
-      have hrca : RCabove (WinTree.set st.tree x { xw with refcount := xw.refcount - 1 }) x := by
-        intro i w hxi hli
-        have hne : x ≠ i := by omega
-        exact inv.rc i w ⟨by rw [← set_get_ne _ hne]; exact hli.1, hli.2⟩
-      obtain ⟨t', dead, hd, C⟩ := destroyT_ok R.closePurges R.dragForgottenOnClose R.destroyClosesChildren
-        (chainFuel st.tree) _ x _ inv0 hl0 (by simp [chainFuel]) hrca
-      rw [show chainFuel st.tree = chainFuel (WinTree.set st.tree x { xw with refcount := xw.refcount - 1 }) by simp] at hd ⊢
-      rw [hz] at hd hl0 C
-      refine ⟨t', dead, by simpa using hd, ?_⟩
-      -- relate the tree before the decrement to the final one
-      have evs : ∀ (i : Nat) (w : Win), st.tree.wins[i]? = some w →
-          ∃ w', t'.wins[i]? = some w' ∧ (w.freed = true → w'.freed = true) ∧
-            (w'.freed = false → i ≠ x ∧ w.freed = false ∧ 1 ≤ w'.refcount) := by
-        intro i w hw
-        by_cases hix : i = x
-        · subst hix
-          obtain ⟨w', hw', hf'⟩ := C.freed
-          exact ⟨w', hw', fun _ => hf', fun h => by rw [hf'] at h; cases h⟩
-        · obtain ⟨w', hw', e⟩ := C.ev.2 i w (by rw [set_get_ne _ (Ne.symm hix)]; exact hw)
-          refine ⟨w', hw', e.1, fun h => ⟨hix, ?_, ?_⟩⟩
-          · cases hf : w.freed with
+  unfold unrefT unrefTWith
+  simp only [get_live hl, bind_ok]
+  have : ¬ xw.refcount < 1 := by omega
+  simp only [this, if_false]
+  by_cases hz : xw.refcount - 1 = 0
+  · simp only [hz, if_true]
+    have hrca : RCabove (WinTree.set st.tree x { xw with refcount := xw.refcount - 1 }) x := by
+      intro i w hxi hli
+      have hne : x ≠ i := by omega
+      exact inv.rc i w ⟨by rw [← set_get_ne _ hne]; exact hli.1, hli.2⟩
+    obtain ⟨t', dead, dropped, hd, C⟩ := destroyT_ok R.closePurges R.dragForgottenOnClose R.destroyClosesChildren
+      (chainFuel st.tree) _ x _ inv0 hl0 (by simp [chainFuel]) hrca
+    rw [show chainFuel st.tree = chainFuel (WinTree.set st.tree x { xw with refcount := xw.refcount - 1 }) by simp] at hd ⊢
+    rw [hz] at hd hl0 C
+    refine ⟨t', dead, dropped, by simpa using hd, ?_⟩
+    -- relate the tree before the decrement to the final one
+    have evs : ∀ (i : Nat) (w : Win), st.tree.wins[i]? = some w →
+        ∃ w', t'.wins[i]? = some w' ∧ (w.freed = true → w'.freed = true) ∧
+          (w'.freed = false → i ≠ x ∧ w.freed = false ∧ 1 ≤ w'.refcount) := by
+      intro i w hw
+      by_cases hix : i = x
+      · subst hix
+        obtain ⟨w', hw', hf'⟩ := C.freed
+        exact ⟨w', hw', fun _ => hf', fun h => by rw [hf'] at h; cases h⟩
+      · obtain ⟨w', hw', e⟩ := C.ev.2 i w (by rw [set_get_ne _ (Ne.symm hix)]; exact hw)
+        refine ⟨w', hw', e.1, fun h => ⟨hix, ?_, ?_⟩⟩
+        · cases hf : w.freed with
+          | false => rfl
+          | true => rw [e.1 hf] at h; cases h
+        · have hf : w.freed = false := by
+            cases hf : w.freed with
             | false => rfl
             | true => rw [e.1 hf] at h; cases h
-          · have hf : w.freed = false := by
-              cases hf : w.freed with
-              | false => rfl
-              | true => rw [e.1 hf] at h; cases h
-            exact e.2.1 h (inv.rc i w ⟨hw, hf⟩)
-      have hsz : t'.wins.size = st.tree.wins.size := by rw [C.ev.1]; simp
-      have hroot : ((∃ r, LiveW t' 0 r) ∨ 0 ∈ dead) ↔ (∃ r, LiveW st.tree 0 r) := by
-        rw [live_or_freed_root C.ev dead C.dead]
+          exact e.2.1 h (inv.rc i w ⟨hw, hf⟩)
+    have hsz : t'.wins.size = st.tree.wins.size := by rw [C.ev.1]; simp
+    have hroot : ((∃ r, LiveW t' 0 r) ∨ 0 ∈ dead) ↔ (∃ r, LiveW st.tree 0 r) := by
+      rw [live_or_freed_root C.ev dead C.dead]
+      constructor
+      · rintro ⟨r, hr⟩
+        by_cases h0 : (0 : Nat) = x
+        · subst h0; exact ⟨xw, hl⟩
+        · exact ⟨r, by rw [← set_get_ne _ (Ne.symm h0)]; exact hr.1, hr.2⟩
+      · rintro ⟨r, hr⟩
+        by_cases h0 : (0 : Nat) = x
+        · subst h0; exact ⟨_, hl0⟩
+        · exact ⟨r, by rw [set_get_ne _ (Ne.symm h0)]; exact hr.1, hr.2⟩
+    refine ⟨?_, hsz, fun i w hw hf => by obtain ⟨w', hw', h1, _⟩ := evs i w hw; exact ⟨w', hw', h1 hf⟩, C.drop.1, ?_⟩
+    refine ⟨C.inv, by simp only; rw [hsz]; exact inv.wx_size, ?_, C.dead.1, ?_, ?_, ?_, ?_, ?_, ?_, inv.simple⟩
+    · intro i w hli
+      cases h0 : st.tree.wins[i]? with
+      | none =>
+        have hlt : ¬ i < st.tree.wins.size := by
+          intro hlt
+          have := Array.getElem?_eq_getElem (xs := st.tree.wins) hlt
+          rw [h0] at this; cases this
+        have := hli.lt
+        simp only at this
+        omega
+      | some w0 =>
+        obtain ⟨w', hw', _, h3⟩ := evs i w0 h0
+        have : w' = w := by have := hli.1; simp only at this; rw [this] at hw'; exact (Option.some.inj hw').symm
+        subst this
+        exact (h3 hli.2).2.2
+    · intro i hi
+      exact ((C.dead.2 i).1 hi).2
+    · intro i w hw hf hi
+      simp only at hw
+      have hnot : ¬ ((∃ w0, LiveW (WinTree.set st.tree x { xw with refcount := 0 }) i w0)) := by
+        intro hlive
+        exact hi ((C.dead.2 i).2 ⟨hlive, w, hw, hf⟩)
+      cases h0 : st.tree.wins[i]? with
+      | none =>
+        have hlt : ¬ i < st.tree.wins.size := by
+          intro hlt
+          have := Array.getElem?_eq_getElem (xs := st.tree.wins) hlt
+          rw [h0] at this; cases this
+        have : t'.wins[i]? = none := Array.getElem?_eq_none (by rw [hsz]; exact Nat.le_of_not_lt hlt)
+        rw [hw] at this; cases this
+      | some w0 =>
+        have hf0 : w0.freed = true := by
+          cases hf0 : w0.freed with
+          | true => rfl
+          | false =>
+            exfalso
+            apply hnot
+            by_cases hix : i = x
+            · subst hix; exact ⟨_, hl0⟩
+            · exact ⟨w0, by rw [set_get_ne _ (Ne.symm hix)]; exact h0, hf0⟩
+        exact inv.dead_pen i w0 h0 hf0 (by simp)
+    · exact ⟨inv.pens.rc, inv.pens.ex, inv.pens.pos⟩
+    · intro hf h
+      exact inv.term_held hf (.inl (hroot.1 h))
+    · intro hf h
+      exact inv.term_free hf (by
+        rintro (h' | h')
+        · exact h (hroot.2 h')
+        · simp at h')
+    · intro hf h
+      exact inv.term_dead hf (.inl (hroot.1 h))
+    · -- the counts of the survivors
+      intro i w' hli
+      cases h0 : st.tree.wins[i]? with
+      | none =>
+        have hlt : ¬ i < st.tree.wins.size := by
+          intro hlt
+          have := Array.getElem?_eq_getElem (xs := st.tree.wins) hlt
+          rw [h0] at this; cases this
+        have := hli.lt
+        omega
+      | some w =>
+        obtain ⟨w'', hw'', _, h3⟩ := evs i w h0
+        have e1 : w'' = w' := by rw [hli.1] at hw''; exact (Option.some.inj hw'').symm
+        subst e1
+        obtain ⟨hix, hfw, _⟩ := h3 hli.2
+        have ht0 : (WinTree.set st.tree x { xw with refcount := 0 }).wins[i]? = some w := by
+          rw [set_get_ne _ (Ne.symm hix)]; exact h0
+        obtain ⟨w2, hw2, e⟩ := C.ev.2 i w ht0
+        have e2 : w2 = w'' := by rw [hli.1] at hw2; exact (Option.some.inj hw2).symm
+        subst e2
+        refine ⟨w, ⟨h0, hfw⟩, ?_⟩
+        simp only [hix, if_false]
+        by_cases hd' : i ∈ dropped
+        · have := ((C.drop.2 i hd').2.2 w w2 ht0 hli.1 hli.2).1
+          simp only [hd', if_true]; omega
+        · simp only [hd', if_false]
+          rcases e.2.2.1 hli.2 with h | ⟨h, _, _⟩ <;> omega
+  · simp only [hz, if_false, pure_ok]
+    refine ⟨_, [], [], rfl, ?_, by simp only [set_size], ?_, List.nodup_nil, ?_⟩
+    rotate_left
+    · intro i w hw hf
+      by_cases hix : i = x
+      · subst hix; rw [hl.1] at hw; cases hw; rw [hl.2] at hf; cases hf
+      · exact ⟨w, by rw [set_get_ne _ (Ne.symm hix)]; exact hw, hf⟩
+    · intro i w' hli
+      by_cases hix : i = x
+      · subst hix
+        have := LiveW.unique hli hl0; subst this
+        refine ⟨xw, hl, ?_⟩
+        simp only [if_true, List.not_mem_nil, if_false]
+        show xw.refcount - 1 + 1 + 0 ≤ xw.refcount
+        omega
+      · refine ⟨w', ⟨by rw [← set_get_ne _ (Ne.symm hix)]; exact hli.1, hli.2⟩, ?_⟩
+        simp only [hix, if_false, List.not_mem_nil]
+        omega
+    refine ⟨inv0, by simp only [set_size]; exact inv.wx_size, ?_, List.nodup_nil, by intro i hi; simp at hi, ?_,
+      ⟨inv.pens.rc, inv.pens.ex, inv.pens.pos⟩, ?_, ?_, ?_, inv.simple⟩
+    · intro i w hli
+      by_cases hix : i = x
+      · subst hix
+        have := LiveW.unique hli hl0; subst this
+        show 1 ≤ xw.refcount - 1
+        omega
+      · exact inv.rc i w ⟨by rw [← set_get_ne _ (Ne.symm hix)]; exact hli.1, hli.2⟩
+    · intro i w hw hf hi
+      by_cases hix : i = x
+      · subst hix
+        simp only at hw
+        rw [hl0.1] at hw; cases hw
+        rw [hl.2] at hf; cases hf
+      · exact inv.dead_pen i w (by simp only at hw; rw [← set_get_ne _ (Ne.symm hix)]; exact hw) hf (by simp)
+    all_goals
+      have hroot : (∃ r, LiveW (WinTree.set st.tree x { xw with refcount := xw.refcount - 1 }) 0 r) ↔ (∃ r, LiveW st.tree 0 r) := by
         constructor
         · rintro ⟨r, hr⟩
           by_cases h0 : (0 : Nat) = x
@@ -525,94 +718,98 @@ theorem unrefW_ok {cfg : Cfg} (R : Repaired cfg) {st : St} (inv : SInv st) {x : 
           by_cases h0 : (0 : Nat) = x
           · subst h0; exact ⟨_, hl0⟩
           · exact ⟨r, by rw [set_get_ne _ (Ne.symm h0)]; exact hr.1, hr.2⟩
-      refine ⟨C.inv, by simp only; rw [hsz]; exact inv.wx_size, ?_, C.dead.1, ?_, ?_, ?_, ?_, ?_, ?_, inv.rb_rc⟩
-      · intro i w hli
-        cases h0 : st.tree.wins[i]? with
-        | none =>
-          have hlt : ¬ i < st.tree.wins.size := by
-            intro hlt
-            have := Array.getElem?_eq_getElem (xs := st.tree.wins) hlt
-            rw [h0] at this; cases this
-          have := hli.lt
-          simp only at this
-          omega
-        | some w0 =>
-          obtain ⟨w', hw', _, h3⟩ := evs i w0 h0
-          have : w' = w := by have := hli.1; simp only at this; rw [this] at hw'; exact (Option.some.inj hw').symm
-          subst this
-          exact (h3 hli.2).2.2
-      · intro i hi
-        exact ((C.dead.2 i).1 hi).2
-      · intro i w hw hf hi
-        simp only at hw
-        have hnot : ¬ ((∃ w0, LiveW (WinTree.set st.tree x { xw with refcount := 0 }) i w0)) := by
-          intro hlive
-          exact hi ((C.dead.2 i).2 ⟨hlive, w, hw, hf⟩)
-        cases h0 : st.tree.wins[i]? with
-        | none =>
-          have hlt : ¬ i < st.tree.wins.size := by
-            intro hlt
-            have := Array.getElem?_eq_getElem (xs := st.tree.wins) hlt
-            rw [h0] at this; cases this
-          have : t'.wins[i]? = none := Array.getElem?_eq_none (by rw [hsz]; exact Nat.le_of_not_lt hlt)
-          rw [hw] at this; cases this
-        | some w0 =>
-          have hf0 : w0.freed = true := by
-            cases hf0 : w0.freed with
-            | true => rfl
-            | false =>
-              exfalso
-              apply hnot
-              by_cases hix : i = x
-              · subst hix; exact ⟨_, hl0⟩
-              · exact ⟨w0, by rw [set_get_ne _ (Ne.symm hix)]; exact h0, hf0⟩
-          exact inv.dead_pen i w0 h0 hf0 (by simp)
-      · exact ⟨inv.pens.rc, inv.pens.ex⟩
-      · intro hf h
-        exact inv.term_held hf (.inl (hroot.1 h))
-      · intro hf h
-        exact inv.term_free hf (by
-          rintro (h' | h')
-          · exact h (hroot.2 h')
-          · simp at h')
-      · intro hf h
-        exact inv.term_dead hf (.inl (hroot.1 h))
-    · simp only [hz, if_false, pure_ok]
-      refine ⟨_, [], rfl, inv0, by simp only [set_size]; exact inv.wx_size, ?_, List.nodup_nil, by intro i hi; simp at hi, ?_,
-        ⟨inv.pens.rc, inv.pens.ex⟩, ?_, ?_, ?_, inv.rb_rc⟩
-      · intro i w hli
-        by_cases hix : i = x
-        · subst hix
-          have := LiveW.unique hli hl0; subst this
-          show 1 ≤ xw.refcount - 1
-          omega
-        · exact inv.rc i w ⟨by rw [← set_get_ne _ (Ne.symm hix)]; exact hli.1, hli.2⟩
-      · intro i w hw hf hi
-        by_cases hix : i = x
-        · subst hix
-          simp only at hw
-          rw [hl0.1] at hw; cases hw
-          rw [hl.2] at hf; cases hf
-        · exact inv.dead_pen i w (by simp only at hw; rw [← set_get_ne _ (Ne.symm hix)]; exact hw) hf (by simp)
-      all_goals
-        have hroot : (∃ r, LiveW (WinTree.set st.tree x { xw with refcount := xw.refcount - 1 }) 0 r) ↔ (∃ r, LiveW st.tree 0 r) := by
-          constructor
-          · rintro ⟨r, hr⟩
-            by_cases h0 : (0 : Nat) = x
-            · subst h0; exact ⟨xw, hl⟩
-            · exact ⟨r, by rw [← set_get_ne _ (Ne.symm h0)]; exact hr.1, hr.2⟩
-          · rintro ⟨r, hr⟩
-            by_cases h0 : (0 : Nat) = x
-            · subst h0; exact ⟨_, hl0⟩
-            · exact ⟨r, by rw [set_get_ne _ (Ne.symm h0)]; exact hr.1, hr.2⟩
-        intro hf h
-      · exact inv.term_held hf (by rcases h with h | h; exact .inl (hroot.1 h); simp at h)
-      · exact inv.term_free hf (by rintro (h' | h'); exact h (.inl (hroot.2 h')); simp at h')
-      · exact inv.term_dead hf (by rcases h with h | h; exact .inl (hroot.1 h); simp at h)
-  obtain ⟨t', dead, ht, invG⟩ := tree
-  obtain ⟨st2, hfold, inv2, _⟩ := release_all dead invG
-  refine ⟨consume st2 dead, ?_, inv2.of_wx rfl rfl rfl rfl (consume_map_pen st2 dead)⟩
-  unfold unrefW
-  simp only [ht, bind_ok, hfold, pure_ok]
+      intro hf h
+    · exact inv.term_held hf (by rcases h with h | h; exact .inl (hroot.1 h); simp at h)
+    · exact inv.term_free hf (by rintro (h' | h'); exact h (.inl (hroot.2 h')); simp at h')
+    · exact inv.term_dead hf (by rcases h with h | h; exact .inl (hroot.1 h); simp at h)
+
+theorem heldW_spec {st : St} {i : Nat} (h : heldW st i = true) : ∃ w, LiveW st.tree i w ∧ 0 < (getX st i).appRefs := by
+  unfold heldW at h
+  cases hw : st.tree.wins[i]? with
+  | none => simp [hw] at h
+  | some w =>
+    simp only [hw, Bool.and_eq_true, Bool.not_eq_true', decide_eq_true_eq] at h
+    exact ⟨w, ⟨hw, h.1⟩, h.2⟩
+
+/-- `consume` takes at most one reference of each window, and only of the windows listed. -/
+theorem consume_appRefs : ∀ (dropped : List Nat) (st : St) (j : Nat), dropped.Nodup →
+    (getX (consume st dropped) j).appRefs ≤ (getX st j).appRefs ∧
+    (getX st j).appRefs ≤ (getX (consume st dropped) j).appRefs + (if j ∈ dropped then 1 else 0)
+  | [], _, _, _ => ⟨Nat.le_refl _, by simp [consume]⟩
+  | i :: rest, st, j, hnd => by
+    obtain ⟨hni, hnd'⟩ := List.nodup_cons.1 hnd
+    have ih := consume_appRefs rest (setX st i { getX st i with appRefs := (getX st i).appRefs - 1 }) j hnd'
+    have e : consume st (i :: rest) = consume (setX st i { getX st i with appRefs := (getX st i).appRefs - 1 }) rest := rfl
+    rw [e]
+    rw [getX_setX] at ih
+    by_cases hij : i = j
+    · subst hij
+      simp only [hni, if_false, Nat.add_zero, List.mem_cons, true_or, if_true] at ih ⊢
+      by_cases hlt : i < st.wx.size
+      · simp only [hlt, and_self, if_true] at ih
+        omega
+      · simp only [hlt, and_false, if_false] at ih
+        omega
+    · have hji : ¬ j = i := fun h => hij h.symm
+      simp only [hij, false_and, if_false] at ih
+      simp only [List.mem_cons, hji, false_or]
+      exact ih
+
+/-- `tickit_window_unref` by the application on a window it holds: never fails, keeps the invariant; the tree keeps
+    its size, what was freed stays freed, and the application has one reference less. -/
+theorem unrefW_ok {cfg : Cfg} (R : Repaired cfg) {st : St} (inv : SInv st) {x : Nat} (hh : heldW st x = true) :
+    ∃ st', unrefW cfg (setX st x { getX st x with appRefs := (getX st x).appRefs - 1 }) x = .ok st' ∧ SInv st' ∧
+      st'.tree.wins.size = st.tree.wins.size ∧
+      (∀ (i : Nat) (w : Win), st.tree.wins[i]? = some w → w.freed = true →
+        ∃ w', st'.tree.wins[i]? = some w' ∧ w'.freed = true) ∧
+      (getX st' x).appRefs + 1 ≤ (getX st x).appRefs := by
+  obtain ⟨xw, hl, hpos⟩ := heldW_spec hh
+  have hxlt : x < st.wx.size := by rw [inv.wx_size]; exact hl.lt
+  have inv0 : SInvB (setX st x { getX st x with appRefs := (getX st x).appRefs - 1 }) [] :=
+    inv.toSInvB.of_wx rfl rfl rfl rfl rfl (setX_map_pen _ rfl)
+  obtain ⟨t', dead, dropped, ht, invG, hsz, hfr, hnd, hcnt⟩ := unrefT_ok R inv0 (x := x) (xw := xw) hl
+  have hf := consume_frame dropped { (setX st x { getX st x with appRefs := (getX st x).appRefs - 1 }) with tree := t' }
+  have invC : SInvB (consume { (setX st x { getX st x with appRefs := (getX st x).appRefs - 1 }) with tree := t' } dropped) dead :=
+    invG.of_wx hf.1 hf.2.1 hf.2.2.1 hf.2.2.2.1 hf.2.2.2.2.1 (consume_map_pen dropped _)
+  obtain ⟨st2, hfold, inv2, ht2, ha2⟩ := release_all dead invC
+  have htree : st2.tree = t' := by rw [ht2, hf.1]
+  -- the application's tally, window by window
+  have happ : ∀ (j : Nat), (getX st2 j).appRefs ≤ (getX st j).appRefs - (if x = j then 1 else 0) ∧
+      (getX st j).appRefs ≤ (getX st2 j).appRefs + (if x = j then 1 else 0) + (if j ∈ dropped then 1 else 0) := by
+    intro j
+    have hc := consume_appRefs dropped { (setX st x { getX st x with appRefs := (getX st x).appRefs - 1 }) with tree := t' } j hnd
+    have e0 : getX { (setX st x { getX st x with appRefs := (getX st x).appRefs - 1 }) with tree := t' } j =
+        getX (setX st x { getX st x with appRefs := (getX st x).appRefs - 1 }) j := rfl
+    rw [e0, getX_setX] at hc
+    rw [ha2 j]
+    by_cases hxj : x = j
+    · subst hxj
+      simp only [hxlt, and_self, if_true] at hc ⊢
+      omega
+    · simp only [hxj, false_and, if_false] at hc ⊢
+      omega
+  refine ⟨st2, ?_, ⟨inv2, ?_⟩, by rw [htree]; exact hsz, ?_, ?_⟩
+  · unfold unrefW
+    simp only [setX_tree] at ht
+    simp only [setX_tree, ht, bind_ok]
+    exact hfold
+  · intro i w' hli
+    rw [htree] at hli
+    obtain ⟨w, hlw, hle⟩ := hcnt i w' hli
+    have h1 := inv.wref i w hlw
+    have h2 := happ i
+    by_cases hxi : x = i
+    · subst hxi
+      simp only [if_true] at hle h2
+      by_cases hd' : x ∈ dropped <;> simp only [hd', if_true, if_false] at hle h2 <;> omega
+    · have hix : ¬ i = x := fun h => hxi h.symm
+      simp only [hxi, hix, if_false] at hle h2
+      by_cases hd' : i ∈ dropped <;> simp only [hd', if_true, if_false] at hle h2 <;> omega
+  · intro i w hw hfw
+    rw [htree]
+    exact hfr i w hw hfw
+  · have := (happ x).1
+    simp only [if_true] at this
+    omega
 
 end Tickit.Life
